@@ -11,6 +11,7 @@ import GocoinV.Proofs.C10Snap
 import GocoinV.Proofs.C10Keys
 import GocoinV.Proofs.C10Prime
 import GocoinV.Proofs.C10Undo
+import GocoinV.Proofs.C10Load
 import GocoinV.Gen.UtxoLoaderFacts
 namespace GocoinV.Props.C10
 open GocoinV GocoinV.UtxoRec GocoinV.ScriptCompress GocoinV.CompactSize
@@ -351,5 +352,57 @@ theorem loader_ring_needs_two_spare_counterexample : ∃ s : Ring, RingReach 5 s
   have r6 : RingReach 5 ⟨5, 1, 0⟩ := .step r5 (.send ⟨4, 1, 0⟩ (by decide))
   have r7 : RingReach 5 ⟨6, 1, 0⟩ := .step r6 (.send ⟨5, 1, 0⟩ (by decide))
   exact ⟨_, r7, fun hs => hs 0 (Nat.le_refl _) (by decide) (by decide)⟩
+
+/-! ## NewUnspentDb as a whole: UTXO.db, the retry with UTXO.old, the empty start (Model/UtxoLoad.lean; what the source
+    does with `rec_idx`, `pool_idx`, `db.dataSize` and the maps between two attempts is `Gen.UtxoLoaderFacts.retryShape`,
+    regenerated by go/cmd/gen_c10) -/
+
+/-- **load_fallback_exact.** With the retry as the current source writes it: whatever the two files contain (either may be
+    missing, cut anywhere, or garbage), `NewUnspentDb` ends with exactly the content of ONE snapshot file — the records
+    (in file order), mode bit, height and hash of UTXO.db if it can be read to its end, else of UTXO.old if that can, else
+    an empty database in the configured format — and with `totalTxs` / `dataSize` equal to the number / total length of
+    these records. Nothing an abandoned attempt has parsed (records waiting in the unsent pack, packs already inserted,
+    counters) is left in the result. -/
+theorem load_fallback_exact (db old : Option Bytes) (c : Bool) :
+    loadDir Gen.UtxoLoaderFacts.retryShape db old c = loadedOf (loadDirSpec db old c) :=
+  loadDir_exact _ ⟨by decide, rfl, rfl, rfl, rfl⟩ db old c
+
+/-- the same for any loader geometry and any source that rewinds the index in the pack, zeroes the size counter and
+    re-makes the maps between two attempts (and zeroes the record counter) (`pool_idx` need not be rewound, stale buffer contents do not matter) -/
+theorem load_fallback_exact_of_cleans (sh : RetryShape) (h : sh.Cleans) (db old : Option Bytes) (c : Bool) :
+    loadDir sh db old c = loadedOf (loadDirSpec db old c) :=
+  loadDir_exact sh h db old c
+
+example : (⟨6, 65536, true, false, true, true, true⟩ : RetryShape).Cleans := ⟨by decide, rfl, rfl, rfl, rfl⟩
+
+/-- **truncated_snapshot_detected.** A snapshot file cut at ANY position before its end (inside the header, between two
+    records, inside a length prefix, inside a record) is not readable: the loader reaches `fatal_error`, it never takes a
+    prefix of the records for the snapshot. -/
+theorem truncated_snapshot_detected (s : Snap) (h : WFSnap s) (k : Nat) (hk : k < (snapEncode s).length) :
+    snapDecode ((snapEncode s).take k) = none :=
+  snapDecode_take_none s h k hk
+
+/-- **truncated_snapshot_falls_back.** UTXO.db = the snapshot `b` that `save` wrote, cut anywhere; UTXO.old = the previous
+    snapshot `a`, intact: the database is opened with exactly `a` — none of the records of `b` that were readable before
+    the cut. -/
+theorem truncated_snapshot_falls_back (a b : Snap) (ha : WFSnap a) (hb : WFSnap b) (k : Nat)
+    (hk : k < (snapEncode b).length) (c : Bool) :
+    loadDir Gen.UtxoLoaderFacts.retryShape (some ((snapEncode b).take k)) (some (snapEncode a)) c = loadedOf a := by
+  rw [load_fallback_exact]
+  have h2 := snapDecode_snapEncode a ha []
+  rw [List.append_nil] at h2
+  simp [loadDirSpec, snapDecode_take_none b hb k hk, h2]
+
+example : WFSnap ⟨true, 7, List.replicate 32 1, [[1, 2, 3]]⟩ :=
+  ⟨by decide, by decide, by decide, by decide⟩
+
+/-- **load_retry_needs_rewind_counterexample.** The rewind is needed: with a loader that keeps `rec_idx` across the retry
+    (everything else as in the source), UTXO.db = two records with the last byte missing and UTXO.old = one record, the
+    database opened from UTXO.old also holds the first record of the damaged UTXO.db. -/
+theorem load_retry_needs_rewind_counterexample :
+    (loadDir ⟨6, 65536, false, false, true, true, true⟩
+      (some ((snapEncode ⟨false, 2, List.replicate 32 2, [[0xb1], [0xb2]]⟩).take 51))
+      (some (snapEncode ⟨false, 1, List.replicate 32 1, [[0xa1]]⟩)) false).snap.recs = [[0xb1], [0xa1]] := by
+  decide +kernel
 
 end GocoinV.Props.C10
